@@ -172,6 +172,15 @@ def run(ctx):
             for c in ("ser", "notify", "equal"):
                 add("dag:" + c, "shared-subarray-dag:w%d-d%d" % (w, d), dag(w, d) + nv.CONSUMERS[c](), "single", modes=(False, True) if ctx.thorough else (False,))
             add("dag:native", "shared-subarray-dag", dag(w, d) + nv.CONSUMERS["native"](), "single")
+        # crafted byte strings for System.Runtime.Deserialize: element/length counts at the var-uint extremes
+        counts = [bytes([0xFF]) + bytes(7) + b"\x80", b"\xff" * 9, bytes([0xFF]) + b"\xff" * 7 + b"\x7f", bytes([0xFF, 0, 0, 0, 0, 1, 0, 0, 0]),
+                  b"\xfe\xff\xff\xff\x7f", b"\xfe\xff\xff\xff\xff", b"\xfe\x00\x00\x01\x00", b"\xfd\xff\xff", b"\xfd\x00\x04", b"\xfd\x01\x04", b"\xfc"]
+        for tag in (0x80, 0x81, 0x82, 0x00, 0x02):
+            for cnt in counts:
+                for tail in (b"", b"\x02\x01\x01", b"\x02\x01\x01" * 4):
+                    blob = bytes([tag]) + cnt + tail
+                    add("deserialize-bytes", "tag%02x-count%s" % (tag, cnt[:2].hex()), nv.push_bytes(blob) + nv.syscall("System.Runtime.Deserialize"), "fast", modes=(False,))
+                    add("deserialize-bytes", "nested-tag%02x-count%s" % (tag, cnt[:2].hex()), nv.push_bytes(b"\x80\x01" + blob) + nv.syscall("System.Runtime.Deserialize"), "fast", modes=(False,))
         n_rand = 4000 if ctx.thorough else 300
         for i in range(n_rand):
             add("random-bytecode", "random", random_code(ctx.rng), "fast", modes=(bool(i % 2),))
@@ -234,6 +243,23 @@ def run(ctx):
             ctx.infra("ontid scenario set-up failed: %s" % [(o.get("step"), o.get("res")) for o in scen])
         ctx.log("ontid scenario: %s" % [(o.get("step", o["id"]), o.get("res", o["out"])[:40]) for o in scen])
 
+    # ---- directed scenario: Contract.Create on a DESTROYED address, then Contract.GetScript / GetStorageContext
+    cd_steps = 0
+    if not ctx.replay_in:
+        for variant, consumer in (("ctx", "GetStorageContext"), ("script", "GetScript")):
+            cres, cdeaths = nv.run_child(ctx, binary, "TestVerifContractDestroyed", [{"id": i} for i in range(3)], "cdestroyed-" + variant, 300, 4,
+                                         "items", {"VERIF_VARIANT": variant}, "run", 0)
+            scen_deaths += cdeaths
+            cd_steps += len(cres)
+            for o in cres:
+                if o["out"] in DEAD:
+                    ctx.violation("ContractCreate:destroyed-address:nil-contract-interop:%s:process-death" % consumer,
+                                  "deploy a contract, let it destroy itself, then `7 params; Ontology.Contract.Create; %s` (step %d) -> %s: %s"
+                                  % (consumer, o["id"], o["out"], (o.get("err") or "")[:240]), {"scenario": "TestVerifContractDestroyed", "variant": variant})
+            if [o.get("res") for o in cres if o["id"] < 2 and o["out"] == "ok"] != ["ok", "ok"]:
+                ctx.infra("destroyed-contract scenario set-up failed: %s" % [(o.get("step"), o.get("res"), o["out"]) for o in cres])
+            ctx.log("destroyed-contract scenario (%s): %s" % (consumer, [(o.get("step", o["id"]), o.get("res", o["out"])[:40]) for o in cres]))
+
     # ---- oracle: the process survives and every request ends
     viol = {}
     n_ok = n_fault = 0
@@ -271,7 +297,7 @@ def run(ctx):
         ctx.samples.append({"finding": key, "program": p["hex"][:300], "outcome": o["out"]})
     return finish(ctx, stats, len(answered), {
         "programs": len(progs), "programs_executed": len(answered), "families": fam_counts, "halt": n_ok, "fault": n_fault,
-        "child_deaths": deaths + deaths2 + scen_deaths, "native_scenario_steps": len(scen), "held_back_programs_run": len(rest), "gas_limit": GAS,
+        "child_deaths": deaths + deaths2 + scen_deaths, "native_scenario_steps": len(scen) + cd_steps, "held_back_programs_run": len(rest), "gas_limit": GAS,
         "finding_classes": {k: len(v) for k, v in viol.items()},
     })
 
